@@ -120,7 +120,7 @@ fn fst_bin() -> PathBuf {
 }
 
 fn csv_field(k: &str) -> String {
-    if k.contains(',') || k.contains('"') || k.starts_with(' ') || k.ends_with(' ') {
+    if k.contains(',') || k.contains('"') || k.contains('\r') || k.starts_with(' ') || k.ends_with(' ') {
         format!("\"{}\"", k.replace('"', "\"\""))
     } else {
         k.to_string()
@@ -158,6 +158,11 @@ fn run_cli(dir: &PathBuf, case: &Case, inputs: &[PathBuf], cfg: Option<Cfg>, idx
         }
     }
     cmd.arg(&out);
+    // every third configuration writes over an existing, much longer output file (--force)
+    let force = cfg.map(|c| c.sched % 3 == 0).unwrap_or(false);
+    if force {
+        std::fs::write(&out, vec![0xa5u8; 70_000]).map_err(|e| Fail::new("harness-io", e.to_string()))?;
+    }
     match case.mode {
         Mode::Max => {
             cmd.arg("--max");
@@ -173,6 +178,9 @@ fn run_cli(dir: &PathBuf, case: &Case, inputs: &[PathBuf], cfg: Option<Cfg>, idx
             // (`--tmp-dir` is declared as a boolean flag in this CLI and cannot take a value)
             cmd.env("TMPDIR", &tmp);
             cmd.env("FST_VERIF_SCHED_SEED", c.sched.to_string());
+            if force {
+                cmd.arg("--force");
+            }
         }
         None => {
             cmd.arg("--sorted");
@@ -180,7 +188,7 @@ fn run_cli(dir: &PathBuf, case: &Case, inputs: &[PathBuf], cfg: Option<Cfg>, idx
     }
     cmd.env("FST_VERIF_TRACE", &trace);
     let desc = || match cfg {
-        Some(c) => format!("batch-size={} fd-limit={} threads={} sched-seed={}{}", c.batch, c.fd, c.threads, c.sched, piped.map(|n| format!(" input #{} on stdin", n)).unwrap_or_default()),
+        Some(c) => format!("batch-size={} fd-limit={} threads={} sched-seed={}{}", c.batch, c.fd, c.threads, c.sched, piped.map(|n| format!(" input #{} on stdin", n)).unwrap_or_default() + if force { " --force over an existing 70000-byte output" } else { "" }),
         None => "--sorted".to_string(),
     };
     // normal runs take milliseconds; one that is still running after 45 seconds has hung
@@ -325,6 +333,9 @@ pub fn check(case: &Case, rec: &mut Rec) -> CheckResult {
             if case.files.len() >= 2 && case.files[..case.files.len() - 1].iter().any(|f| f.is_empty()) {
                 rec.class("empty_file_before_the_last");
             }
+            if case.rows().iter().any(|(k, _)| k.ends_with('\r')) {
+                rec.class("key_ending_in_cr_on_unterminated_last_line");
+            }
             if case.rows().iter().any(|(k, _)| k.contains('\u{0}')) {
                 rec.class("key_with_nul_byte");
             }
@@ -342,17 +353,26 @@ pub fn check(case: &Case, rec: &mut Rec) -> CheckResult {
         sorted_rows.sort();
         let sp = dir.join("sorted-in.txt");
         let mut s = String::new();
-        for (k, v) in &sorted_rows {
+        // a key ending in '\r' can only stand on an unterminated last line
+        let n_sorted = sorted_rows.len();
+        let mut expressible = true;
+        for (j, (k, v)) in sorted_rows.iter().enumerate() {
             if case.mode == Mode::Set {
                 s.push_str(k);
             } else {
                 s.push_str(&format!("{},{}", csv_field(k), v));
             }
+            if k.ends_with('\r') && case.mode == Mode::Set {
+                if j + 1 == n_sorted {
+                    continue;
+                }
+                expressible = false;
+            }
             s.push('\n');
         }
         std::fs::write(&sp, s).map_err(|e| Fail::new("harness-io", e.to_string()))?;
-        let (sorted_bytes, _) = run_cli(&dir, case, &[sp], None, 9999)?;
         let harness = gen::build_plain(&model, false).map_err(|e| Fail::new("build-error", e))?;
+        let sorted_bytes = if expressible { run_cli(&dir, case, &[sp], None, 9999)?.0 } else { harness.clone() };
         if let Some((b0, c0)) = &first {
             vensure!(b0 == &sorted_bytes, "cli-unsorted-vs-sorted", "unsorted build ({:?}) differs from `--sorted` on the sorted data ({} vs {} bytes); input {}", c0, b0.len(), sorted_bytes.len(), case.show());
             vensure!(b0 == &harness, "cli-unsorted-vs-library", "unsorted build ({:?}) differs from a library build of the same data; input {}", c0, case.show());
@@ -382,6 +402,9 @@ fn key_strategy() -> impl Strategy<Value = String> {
         1 => "[ab]{6,10}",
         1 => "[ab]{0,2}\\x00{1,3}".prop_map(|s| s.replace("\\x00", "\u{0}")).prop_filter("non-empty", |s| !s.is_empty()),
         1 => "[ab]{0,2}[\\x01\\x7f\t]{1,2}",
+        // carriage returns inside a key, and at its end (kept only where the input format can
+        // express it: on the last line of a file that does not end in a newline)
+        1 => "[ab]{1,2}\r[ab]{0,2}",
     ]
 }
 
@@ -427,6 +450,15 @@ pub fn case_strategy() -> impl Strategy<Value = Case> {
                 for e in empties {
                     let at = e % (files.len() + 1);
                     files.insert(at, vec![]);
+                }
+                // a key ending in '\r' followed by a line terminator would read as CRLF
+                for f in files.iter_mut() {
+                    let n = f.len();
+                    for (j, r) in f.iter_mut().enumerate() {
+                        if r.0.ends_with('\r') && !(j + 1 == n && eol == 2 && mode == Mode::Set) {
+                            r.0.push('x');
+                        }
+                    }
                 }
                 if bigvals {
                     // values beyond 32 bits (sums of <= 40 rows cannot overflow)
